@@ -276,7 +276,18 @@ func (w *World) probeBalances(n *Node, extra []string) {
 		// transfers into the genesis issuer's wallet leave the other wallets
 		gin, _ := flows(before.Genesis, allv)
 		exp.Sub(exp, gin)
-		if sum.Cmp(exp) != 0 {
+		overdrawn := false
+		for _, a := range addrs {
+			if a == before.Genesis {
+				continue
+			}
+			if in, out := flows(a, allv); in.Cmp(out) < 0 {
+				overdrawn = true // the union-overdraw oracle reports this ledger; the sum cannot hold on it
+			}
+		}
+		if overdrawn {
+			w.probe("c02-supply-sum-skipped-ledger-overdrawn")
+		} else if sum.Cmp(exp) != 0 {
 			w.violate("C02", "supply", "reported-balances-do-not-sum-to-genesis-supply", n.Idx, "sum %s expected %s", sum, exp)
 		}
 		w.probe("c02-supply-sum-checked")
